@@ -5,6 +5,9 @@
  * lets the monitor count winners and losers deterministically instead of
  * racing the process' own death.  Then N fresh threads race ovni_proc_fini().
  *
+ * With RACEDRV_MIXED the odd racers of the second phase call ovni_proc_init()
+ * instead (all must be refused).
+ *
  * usage: racedrv <nthreads>       (OVNI_TRACEDIR must be set)
  * prints: INIT winners=<w> refused=<r> winner=<index>
  *         FINI winners=<w> refused=<r> winner=<index>
@@ -20,7 +23,8 @@
 #include "ovni.h"
 
 static pthread_barrier_t bar;
-static atomic_int returned, refused, winner_idx;
+static atomic_int returned, refused, winner_idx, init_returned;
+static int mixed;
 static _Thread_local int my_idx;
 static int phase;
 
@@ -38,10 +42,19 @@ racer(void *arg)
 {
 	my_idx = (int) (long) arg;
 	pthread_barrier_wait(&bar);
-	if (phase == 0)
+	if (phase == 0) {
 		ovni_proc_init(1, "raceloom", 4242);
-	else
+	} else if (mixed && (my_idx & 1)) {
+		/* RACEDRV_MIXED: odd racers of the second phase try to initialise
+		 * the process again while the others finalise it: the process is
+		 * ready, being finalised or gone, so every such call must be
+		 * refused */
+		ovni_proc_init(1, "raceloom", 4242);
+		atomic_fetch_add(&init_returned, 1);
+		return NULL;
+	} else {
 		ovni_proc_fini();
+	}
 	atomic_store(&winner_idx, my_idx);
 	atomic_fetch_add(&returned, 1);
 	return NULL;
@@ -52,7 +65,7 @@ wait_all(int n)
 {
 	struct timespec ts = { 0, 1000000 };
 	for (int i = 0; i < 20000; i++) {
-		if (atomic_load(&returned) + atomic_load(&refused) >= n)
+		if (atomic_load(&returned) + atomic_load(&refused) + atomic_load(&init_returned) >= n)
 			break;
 		nanosleep(&ts, NULL);
 	}
@@ -65,6 +78,7 @@ int
 main(int argc, char *argv[])
 {
 	int n = argc > 1 ? atoi(argv[1]) : 4;
+	mixed = getenv("RACEDRV_MIXED") != NULL;
 	struct sigaction sa;
 	memset(&sa, 0, sizeof(sa));
 	sa.sa_handler = on_abort;
@@ -80,8 +94,9 @@ main(int argc, char *argv[])
 		for (long i = 0; i < n; i++)
 			pthread_create(&th[i], NULL, racer, (void *) i);
 		wait_all(n);
-		printf("%s winners=%d refused=%d winner=%d\n", phase == 0 ? "INIT" : "FINI",
-				atomic_load(&returned), atomic_load(&refused), atomic_load(&winner_idx));
+		printf("%s winners=%d refused=%d winner=%d reinit=%d\n", phase == 0 ? "INIT" : "FINI",
+				atomic_load(&returned), atomic_load(&refused), atomic_load(&winner_idx),
+				atomic_load(&init_returned));
 		fflush(stdout);
 		if (phase == 0 && atomic_load(&returned) != 1)
 			break;
